@@ -387,6 +387,10 @@ def run_check(pid, tier, seed):
             else:
                 sl = props.get("_standins", {}).get("%s/%s" % (unit, rec.qname), [])
                 ent["status"] = "assumed in Verus" + ("; bounded Kani stand-in: " + ", ".join(h["harness"] for h in sl) if sl else "; no stand-in")
+                twin_emission = [r2 for r2 in R.records if r2.qname.startswith(rec.qname + " (emitted as ") and r2.mode == "proved"]
+                if twin_emission:
+                    ent["status"] = ("trait-method emission without body; the SAME source item is emitted and proved as the free function `%s` (N11) with the identical contract"
+                                     % twin_emission[0].qname.split("emitted as ")[1].rstrip(")")) + ("; additional Kani stand-in: " + ", ".join(h["harness"] for h in sl) if sl else "")
                 for h in sl:
                     standin_harnesses.append(h)
             fns.append(ent)
